@@ -56,6 +56,8 @@ type CrashSignal struct{}
 
 var (
 	errModelNotExist = &fs.PathError{Op: "open", Path: "model", Err: fs.ErrNotExist}
+	errModelNotDir      = &fs.PathError{Op: "stat", Path: "model", Err: errors.New("not a directory")}
+	errModelNameTooLong = &fs.PathError{Op: "stat", Path: "model", Err: errors.New("file name too long")}
 	errModelExist    = &fs.PathError{Op: "open", Path: "model", Err: fs.ErrExist}
 	errModelIsDir    = &fs.PathError{Op: "open", Path: "model", Err: errors.New("is a directory")}
 	errModelClosed   = &fs.PathError{Op: "file", Path: "model", Err: fs.ErrClosed}
@@ -258,6 +260,21 @@ func ModelStat(name string) (os.FileInfo, error) {
 	name = mClean(name)
 	f, ok := m.files[name]
 	if !ok || m.crashed {
+		// a path that runs THROUGH a regular file, or has an over-long component, fails with an error that is not
+		// "does not exist" (ENOTDIR / ENAMETOOLONG), as on a real file system
+		if !m.crashed {
+			if len(mBase(name)) > 255 {
+				return nil, errModelNameTooLong
+			}
+			for par := mParent(name); par != "/"; par = mParent(par) {
+				if pf, pok := m.files[par]; pok {
+					if !pf.dir {
+						return nil, errModelNotDir
+					}
+					break
+				}
+			}
+		}
 		return nil, errModelNotExist
 	}
 	return mInfo{name: mBase(name), size: int64(len(f.data)), dir: f.dir, mod: f.mod}, nil
